@@ -212,6 +212,7 @@ func ruleBracketPlacement() check.Rule {
 		Name: "BRACKET-PLACEMENT",
 		Doc:  "in wrapPipeWithObservability the user's operator chain is one argument of a ro.PipeOpN call; the collector fields that describe what enters the chain (NotificationsInTotal, NotificationLagSeconds) are handed to stages placed before it (source side), the fields that describe what the subscriber sees (NotificationsOutTotal, SubscriptionsTotal) to stages placed after it (subscriber side): a subscription counter on the source side counts the subscriptions the chain makes to its source (3 under RepeatWith(3), 0 under Take(0)) instead of one per Subscribe, an output counter on the source side counts what was received instead of what was delivered",
 		Run: func(c *check.Ctx) {
+			m := c.M
 			p := c.Prog.ByPath[PromPkg]
 			if p == nil {
 				return
@@ -263,25 +264,40 @@ func ruleBracketPlacement() check.Rule {
 				if i > chainIdx {
 					where = "after"
 				}
-				ast.Inspect(a, func(y ast.Node) bool {
-					sel, ok := y.(*ast.SelectorExpr)
-					if !ok {
+				var scan func(n ast.Node, depth int)
+				scan = func(n ast.Node, depth int) {
+					ast.Inspect(n, func(y ast.Node) bool {
+						// a metric looked up into a local first (inTotal := collector.NotificationsInTotal.With(labels))
+						if id, ok := y.(*ast.Ident); ok && depth > 0 {
+							if v, ok := objOf(info, id).(*types.Var); ok && !v.IsField() {
+								for _, d := range m.Defs[v] {
+									if d.Expr != nil {
+										scan(d.Expr, depth-1)
+									}
+								}
+							}
+							return true
+						}
+						sel, ok := y.(*ast.SelectorExpr)
+						if !ok {
+							return true
+						}
+						if s, ok := info.Selections[sel]; !ok || s.Kind() != types.FieldVal {
+							return true
+						}
+						want, known := side[sel.Sel.Name]
+						if !known {
+							return true
+						}
+						seen[sel.Sel.Name] = true
+						if want != where {
+							bad = true
+							c.Violation(key+"/"+sel.Sel.Name, sel.Pos(), "collector.%s is wired to a stage placed %s the user's chain; it describes the %s side", sel.Sel.Name, where, map[string]string{"before": "source", "after": "subscriber"}[want])
+						}
 						return true
-					}
-					if s, ok := info.Selections[sel]; !ok || s.Kind() != types.FieldVal {
-						return true
-					}
-					want, known := side[sel.Sel.Name]
-					if !known {
-						return true
-					}
-					seen[sel.Sel.Name] = true
-					if want != where {
-						bad = true
-						c.Violation(key+"/"+sel.Sel.Name, sel.Pos(), "collector.%s is wired to a stage placed %s the user's chain; it describes the %s side", sel.Sel.Name, where, map[string]string{"before": "source", "after": "subscriber"}[want])
-					}
-					return true
-				})
+					})
+				}
+				scan(a, 2)
 			}
 			for name := range side {
 				if !seen[name] {
